@@ -163,8 +163,35 @@ def _slug(s):
     return re.sub(r'[^A-Za-z0-9_.-]+', '_', s)[:80]
 
 
+def _reap_stale_live(max_age=1800.0):
+    """daemons / probe workers of an earlier LIVE run whose shard was killed by a watchdog before it could clean up:
+    anything carrying the VERIF_LIVE marker that is older than half an hour"""
+    try:
+        hz = os.sysconf('SC_CLK_TCK')
+        up = float(open('/proc/uptime').read().split()[0])
+    except Exception:
+        return 0
+    n = 0
+    for p in os.listdir('/proc'):
+        if not p.isdigit():
+            continue
+        try:
+            with open('/proc/%s/environ' % p, 'rb') as f:
+                if b'VERIF_LIVE=' not in f.read():
+                    continue
+            st = open('/proc/%s/stat' % p).read()
+            start = int(st[st.rfind(')') + 2:].split()[19]) / hz
+            if up - start > max_age and int(p) != os.getpid():
+                os.kill(int(p), signal.SIGKILL)
+                n += 1
+        except (OSError, ValueError, IndexError):
+            continue
+    return n
+
+
 def orchestrate(mod, tier, seed, check_script):
     t0 = time.time()
+    _reap_stale_live()
     pid_ = mod.ID
     plan = mod.plan(tier, seed)
     n = len(plan)
